@@ -234,7 +234,13 @@ func main() {
 	nLocks, lockSkipped := rewriteLocks(abs)
 	skipped = append(skipped, autoSkipped...)
 	skipped = append(skipped, lockSkipped...)
-	fmt.Printf("instrument: %d automatic yield points, %d lock declarations rewritten\n", nAuto, nLocks)
+	nOrd := 0
+	if os.Getenv("INSTRUMENT_NO_ORDER") == "" {
+		var ordSkipped []string
+		nOrd, ordSkipped = orderMapRanges(abs)
+		skipped = append(skipped, ordSkipped...)
+	}
+	fmt.Printf("instrument: %d automatic yield points, %d lock declarations rewritten, %d map ranges ordered\n", nAuto, nLocks, nOrd)
 	drops := []string{"pkg/verifhook/hook.go", "pkg/verifhook/locks.go", "export_verif.go", "pkg/multicast/sim_verif.go"}
 	for _, d := range drops {
 		if err := copyFile(filepath.Join(abs, d), filepath.Join(*hooks, d)); err != nil {
@@ -415,5 +421,94 @@ func rewriteLocks(root string) (int, []string) {
 		}
 		return nil
 	})
+	return total, skipped
+}
+
+var orderedMaps = regexp.MustCompile(`^(setuppedMedias|prevMedias)$|\.(setuppedMedias|medias|formats|sessions|localSSRCs)$`)
+
+// orderMapRanges makes the iteration order of the library's maps of medias / formats / sessions a
+// function of the run (root package, non-test files): `for k, v := range m {` becomes
+// `for _, k := range verifOrder(m) { v, ok := m[k]; if !ok { continue }` where verifOrder
+// (export_verif.go) returns the keys sorted by what identifies them (control attribute, payload
+// type, id) and rotated by the run's seed. Go randomises map iteration per process; with this a
+// replay sees the order of the run it replays. Any order is one the unchanged code can produce.
+func orderMapRanges(root string) (int, []string) {
+	total := 0
+	var skipped []string
+	ents, _ := os.ReadDir(root)
+	for _, d := range ents {
+		name := d.Name()
+		if d.IsDir() || !strings.HasSuffix(name, ".go") || strings.HasSuffix(name, "_test.go") || name == "export_verif.go" {
+			continue
+		}
+		path := filepath.Join(root, name)
+		src, err := os.ReadFile(path)
+		if err != nil {
+			continue
+		}
+		fset := token.NewFileSet()
+		f, err := parser.ParseFile(fset, path, src, parser.ParseComments)
+		if err != nil {
+			continue
+		}
+		type rep struct {
+			from, to int
+			text     string
+		}
+		var reps []rep
+		n := 0
+		ast.Inspect(f, func(x ast.Node) bool {
+			rs, ok := x.(*ast.RangeStmt)
+			if !ok || rs.Tok != token.DEFINE || rs.Key == nil || rs.Body == nil {
+				return true
+			}
+			xs := string(src[fset.Position(rs.X.Pos()).Offset:fset.Position(rs.X.End()).Offset])
+			if strings.ContainsAny(xs, "(\n") || !orderedMaps.MatchString(xs) {
+				return true
+			}
+			key := "_"
+			if id, ok := rs.Key.(*ast.Ident); ok {
+				key = id.Name
+			} else {
+				return true
+			}
+			val := ""
+			if rs.Value != nil {
+				id, ok := rs.Value.(*ast.Ident)
+				if !ok {
+					return true
+				}
+				val = id.Name
+			}
+			n++
+			if key == "_" {
+				if val == "" || val == "_" {
+					return true // only counts the entries
+				}
+				key = fmt.Sprintf("verifK%d", n)
+			}
+			text := fmt.Sprintf("for _, %s := range verifOrder(%s) {", key, xs)
+			if val != "" && val != "_" {
+				text += fmt.Sprintf(" %s, verifOK := %s[%s]; if !verifOK { continue };", val, xs, key)
+			}
+			reps = append(reps, rep{fset.Position(rs.For).Offset, fset.Position(rs.Body.Lbrace).Offset + 1, text})
+			return true
+		})
+		if len(reps) == 0 {
+			continue
+		}
+		sort.Slice(reps, func(i, j int) bool { return reps[i].from > reps[j].from })
+		out := string(src)
+		for _, r := range reps {
+			out = out[:r.from] + r.text + out[r.to:]
+		}
+		if _, perr := parser.ParseFile(token.NewFileSet(), path, out, 0); perr != nil {
+			skipped = append(skipped, "order:"+name)
+			continue
+		}
+		if os.WriteFile(path, []byte(out), 0o644) == nil {
+			total += len(reps)
+		}
+	}
 	return total, skipped
 }
